@@ -4,7 +4,7 @@ open Emitter
 
 /-! ### base64 -/
 
-theorem decodeMap_encChar : ∀ i : Fin 64, decodeMap (encChar i.val) = UInt8.ofNat i.val := by decide
+theorem decodeMap_encChar : ∀ i : Fin 64, decodeMap (encChar i.val) = UInt8.ofNat i.val := by decide +kernel
 
 theorem decodeMap_encChar' (i : Nat) (h : i < 64) : decodeMap (encChar i) = UInt8.ofNat i :=
   decodeMap_encChar ⟨i, h⟩
